@@ -351,7 +351,28 @@ def floatT : Dnp.Window.Transc Float :=
 
 def ratToFloat (q : Rat) : Float := Float.ofInt q.num / Float.ofNat q.den
 
+/-- the two T1 transforms of `interpolate_T1` (linear: Eq. 39, second order: Eq. 22/23), forward and back -/
+def hydrationT1J (j : Json) : M Json := do
+  let r (k : String) : M Rat := do jRat (← jField j k)
+  let xs ← jRatList (← jField j "x")
+  let ps ← jRatList (← jField j "p")
+  let T10 ← r "T10"; let T100 ← r "T100"; let spinC ← r "spinC"
+  let mode ← jStr (← jField j "mode")
+  let out ← match mode with
+    | "linear-fwd" => pure (xs.map (fun t => Dnp.Hydration.linearT1 T10 T100 t))
+    | "linear-back" => pure (xs.map (fun l => Dnp.Hydration.fromLinearT1 T10 T100 l))
+    | "second-fwd" | "second-back" => do
+      let t1w ← r "T1w"; let d ← r "dT1w"; let macroC ← r "macroC"
+      let kHH := (1 / T10 - 1 / t1w) / macroC
+      if mode == "second-fwd" then
+        pure (List.zipWith (fun t p => Dnp.Hydration.secondOrderKrp t t1w d p kHH macroC spinC) xs ps)
+      else
+        pure (List.zipWith (fun k p => Dnp.Hydration.fromSecondOrderKrp k t1w d p kHH macroC spinC) xs ps)
+    | m => throw s!"unknown T1 transform {m}"
+  pure (Json.mkObj [("outcome", "ok"), ("y", Json.arr (out.map ratJ).toArray)])
+
 def hydrationJ (j : Json) : M Json := do
+  if (jFieldOpt j "mode").isSome then return ← hydrationT1J j
   let r (k : String) : M Rat := do jRat (← jField j k)
   let E ← jRatList (← jField j "E"); let T1p ← jRatList (← jField j "T1p")
   let spinC ← r "spinC"; let w ← r "omegaRatio"; let T10 ← r "T10"; let T100 ← r "T100"
@@ -363,6 +384,17 @@ def hydrationJ (j : Json) : M Json := do
     ("klow", ratJ (Dnp.Hydration.klow ksigma kr)), ("Dlocal", ratJ (Dnp.Hydration.dlocal tb tcorr dh ds)),
     ("field", ratJ (Dnp.Hydration.normalise Dnp.Generated.legacyRules "magnetic_field" (← r "field"))),
     ("spin_C", ratJ (Dnp.Hydration.normalise Dnp.Generated.legacyRules "spin_C" (← r "spinC_in")))])
+
+/-- grid of the fitted curve (C18): min / max of the axis are taken here, over the rationals -/
+def fitgridJ (j : Json) : M Json := do
+  let coord ← jRatList (← jField j "coord")
+  let fp ← match jFieldOpt j "fit_points" with
+    | some v => do pure (some (← jNat v))
+    | none => pure none
+  let lo := coord.foldl (fun a b => if b < a then b else a) (coord.headD 0)
+  let hi := coord.foldl (fun a b => if a < b then b else a) (coord.headD 0)
+  let g := Dnp.Fit.fitGrid (fun n => (n : Rat)) coord lo hi fp
+  pure (Json.mkObj [("outcome", "ok"), ("grid", Json.arr (g.map ratJ).toArray)])
 
 def lineshapeJ (j : Json) : M Json := do
   let kind ← jStr (← jField j "kind")
@@ -583,6 +615,12 @@ partial def loop (h : IO.FS.Stream) (out : IO.FS.Stream) (s : Store) : IO Unit :
     else
     if (j.getObjVal? "op").toOption == some (Json.str "hydration") then
       match hydrationJ j with
+      | .ok r => do out.putStrLn (Json.compress r); loop h out s
+      | .error e => do
+        out.putStrLn (Json.compress (Json.mkObj [("outcome", Json.str ("driver-error:" ++ e))])); loop h out s
+    else
+    if (j.getObjVal? "op").toOption == some (Json.str "fitgrid") then
+      match fitgridJ j with
       | .ok r => do out.putStrLn (Json.compress r); loop h out s
       | .error e => do
         out.putStrLn (Json.compress (Json.mkObj [("outcome", Json.str ("driver-error:" ++ e))])); loop h out s
